@@ -68,6 +68,14 @@ def build_volume(case, M, iface):
     return v
 
 
+def reinitialise(M, n):
+    """Edit history before a run: initialise, declare an unused parameter (un-initialises the model), n times; the next
+    initialisation (interface construction / simulation) must yield the model a fresh build would."""
+    for i in range(n or 0):
+        M.py_initialize()
+        M.create_parameter("zz_unused_%d" % i, 1.0)
+
+
 def execute(case):
     """Run the real simulator. Returns dict(rows, times, vols, divided, recs, dropped, queue(list per slot), error)."""
     import bioscrape.random as R_
@@ -78,6 +86,7 @@ def execute(case):
     mode = case["mode"]
     out = {"error": None}
     M = rm.to_bioscrape(model)
+    reinitialise(M, case.get("reinit", 0))
     out["species_order"] = M.get_species_list()
     R_.py_seed_random(case["bseed"])
     dt = float(grid[1] - grid[0])
